@@ -18,13 +18,73 @@ import (
 )
 
 type Server struct {
-	mu    sync.Mutex
-	ln    net.Listener
-	colls map[string][]bson.D // "db.coll" -> docs
-	Log   []string
-	reqID int32
+	mu      sync.Mutex
+	ln      net.Listener
+	colls   map[string][]bson.D // "db.coll" -> docs
+	Log     []string            // data commands in the order they took effect: "name db.coll"
+	reqID   int32
 	failKey string
 	failN   int
+	// fault plan: the failAt-th data command from now fails (mode "error") or is never answered and
+	// every later command neither (mode "dead": the database is gone until Revive)
+	failAt   int
+	failMode string
+	dead     bool
+	ncmd     int
+	// Gate, when set, is called (without the lock) before a data command takes effect; it may block.
+	Gate  func(name, coll string)
+	conns map[net.Conn]bool
+}
+
+// IsData tells whether a command counts as a database command of a request (not handshake / housekeeping).
+func IsData(name string) bool {
+	switch name {
+	case "isMaster", "ismaster", "hello", "saslStart", "saslContinue", "ping", "endSessions", "killCursors":
+		return false
+	}
+	return true
+}
+
+// FailAt arms the fault plan: the k-th data command from now (k >= 1) fails in the given mode.
+func (s *Server) FailAt(k int, mode string) {
+	s.mu.Lock()
+	s.failAt, s.failMode, s.ncmd = k, mode, 0
+	s.mu.Unlock()
+}
+
+// Disarm clears the fault plan and returns how many data commands were counted since FailAt.
+func (s *Server) Disarm() int {
+	s.mu.Lock()
+	defer s.mu.Unlock()
+	n := s.ncmd
+	s.failAt, s.failMode = 0, ""
+	return n
+}
+
+// Revive makes a dead database answer again (existing connections were closed).
+func (s *Server) Revive() { s.mu.Lock(); s.dead = false; s.mu.Unlock() }
+
+// Count returns the number of data commands handled so far.
+func (s *Server) Count() int { s.mu.Lock(); defer s.mu.Unlock(); return len(s.Log) }
+
+// DumpAll returns a deep copy of every collection of the database.
+func (s *Server) DumpAll(db string) map[string][]bson.D {
+	s.mu.Lock()
+	defer s.mu.Unlock()
+	out := map[string][]bson.D{}
+	for k, v := range s.colls {
+		if len(k) > len(db)+1 && k[:len(db)+1] == db+"." {
+			cp := make([]bson.D, len(v))
+			for i, d := range v {
+				b, _ := bson.Marshal(d)
+				var c bson.D
+				_ = bson.Unmarshal(b, &c)
+				cp[i] = c
+			}
+			out[k[len(db)+1:]] = cp
+		}
+	}
+	return out
 }
 
 // FailNext makes the next n commands whose name (or "name:collection") equals key fail.
@@ -35,7 +95,7 @@ func New() (*Server, error) {
 	if err != nil {
 		return nil, err
 	}
-	s := &Server{ln: ln, colls: map[string][]bson.D{}}
+	s := &Server{ln: ln, colls: map[string][]bson.D{}, conns: map[net.Conn]bool{}}
 	go s.accept()
 	return s, nil
 }
@@ -53,7 +113,15 @@ func (s *Server) accept() {
 }
 
 func (s *Server) serve(c net.Conn) {
-	defer c.Close()
+	s.mu.Lock()
+	s.conns[c] = true
+	s.mu.Unlock()
+	defer func() {
+		s.mu.Lock()
+		delete(s.conns, c)
+		s.mu.Unlock()
+		c.Close()
+	}()
 	for {
 		var hdr [16]byte
 		if _, err := io.ReadFull(c, hdr[:]); err != nil {
@@ -115,6 +183,9 @@ func (s *Server) serve(c net.Conn) {
 				}
 			}
 			resp := s.handle(db, cmd, seqs)
+			if len(resp) == 1 && resp[0].Key == "$dead" {
+				return // the database died: the connection drops without an answer
+			}
 			rb, err := bson.Marshal(resp)
 			if err != nil {
 				panic(err)
@@ -280,14 +351,34 @@ func applyUpdate(doc bson.D, u bson.D, isInsert bool) bson.D {
 	return nd
 }
 
+// errDead is returned by handle when the command must not be answered.
+var errDead = bson.D{{Key: "$dead", Value: true}}
+
 func (s *Server) handle(db string, cmd bson.D, seqs map[string][]bson.D) bson.D {
+	name := cmd[0].Key
+	coll, _ := cmd[0].Value.(string)
+	if g := s.Gate; g != nil && IsData(name) {
+		g(name, coll)
+	}
 	s.mu.Lock()
 	defer s.mu.Unlock()
-	name := cmd[0].Key
 	ok := bson.D{{Key: "ok", Value: 1.0}}
-	coll, _ := cmd[0].Value.(string)
 	ns := db + "." + coll
-	s.Log = append(s.Log, fmt.Sprintf("%s %s", name, ns))
+	if IsData(name) {
+		if s.dead {
+			return errDead
+		}
+		s.ncmd++
+		if s.failAt > 0 && s.ncmd == s.failAt {
+			if s.failMode == "dead" {
+				s.dead = true
+				return errDead
+			}
+			s.Log = append(s.Log, fmt.Sprintf("FAILED %s %s", name, ns))
+			return bson.D{{Key: "ok", Value: 0.0}, {Key: "errmsg", Value: "injected failure"}, {Key: "code", Value: int32(11600)}, {Key: "codeName", Value: "InterruptedAtShutdown"}}
+		}
+		s.Log = append(s.Log, fmt.Sprintf("%s %s", name, ns))
+	}
 	if s.failN > 0 && (s.failKey == name || s.failKey == name+":"+coll) {
 		s.failN--
 		return bson.D{{Key: "ok", Value: 0.0}, {Key: "errmsg", Value: "injected failure"}, {Key: "code", Value: int32(11600)}, {Key: "codeName", Value: "InterruptedAtShutdown"}}
@@ -491,4 +582,19 @@ func (s *Server) Dump(ns string) []bson.D {
 	s.mu.Lock()
 	defer s.mu.Unlock()
 	return append([]bson.D{}, s.colls[ns]...)
+}
+
+// Close stops the server and drops its connections.
+func (s *Server) Close() {
+	s.ln.Close()
+	s.mu.Lock()
+	for c := range s.conns {
+		// reset instead of an orderly close: no TIME_WAIT socket is left behind (thousands of
+		// short-lived stacks would otherwise exhaust the ephemeral ports)
+		if t, ok := c.(*net.TCPConn); ok {
+			t.SetLinger(0)
+		}
+		c.Close()
+	}
+	s.mu.Unlock()
 }
